@@ -272,9 +272,11 @@ def overlapping_saves(ctx, nodes: dict, workdir: str, index: int, yields: int, g
         for _ in range(yields):
             await asyncio.sleep(0)
         state["first_done_early"] = first.done()
-        free = [n for n in range(1, 255) if n not in nodes]
+        # the file's keys are sorted as text: new ids that sort FIRST change the document from its beginning, so two writers
+        # working on different snapshots disagree about (almost) every byte
+        free = sorted((n for n in range(1, 255) if n not in nodes), key=str)
         for k in range(grow):
-            nid = free[(index * 7 + k * 13) % len(free)]
+            nid = free[k] if index % 2 == 0 else free[(index * 7 + k * 13) % len(free)]
             nodes[nid] = Node(nid, 17, "2.1", children={0: Child(0, 6, description=f"added {k}", values={0: "20.5"})},
                               sketch_name=f"grown while saving {k}")
         state["want"] = typed(snap(nodes))
@@ -329,10 +331,10 @@ def queued_saves_case(ctx, nodes: dict, workdir: str, index: int, n_saves: int, 
         import asyncio
 
         persistence = Persistence(nodes, path)
-        free = [n for n in range(1, 255) if n not in nodes]
+        free = sorted((n for n in range(1, 255) if n not in nodes), key=str)
         tasks = []
         for k in range(n_saves):
-            nid = free[(index * 5 + k * 11) % len(free)]
+            nid = free[k] if index % 2 == 0 else free[(index * 5 + k * 11) % len(free)]
             nodes[nid] = Node(nid, 17, "2.2", sketch_name=f"before save {k}")
             state["called_with"][k] = set(nodes)
             tasks.append(asyncio.ensure_future(persistence.save()))
@@ -491,6 +493,10 @@ def run(ctx) -> None:
             for i in range(ctx.pick(90, 3000) // ctx.shard_count + 2):
                 nodes = constructed(rng) if i % 3 else big_registry(rng, rng.choice([20, 120]), rng.choice([2, 10]), 2)
                 overlapping_saves(ctx, nodes, workdir, i, yields=i % 9, grow=rng.choice([1, 1, 2, 5]))
+            for i in range(4):  # fixed: documents well above the file buffer, second save 1-4 loop iterations into the first
+                if ctx.mine(i):
+                    overlapping_saves(ctx, big_registry(rng, 120, 10, 2), workdir, 1000 + 2 * i, yields=1 + i, grow=1 + i % 2)
+                    queued_saves_case(ctx, big_registry(rng, 100, 8, 2), workdir, 1000 + 2 * i, 3 + i % 3, [])
             for i in range(ctx.pick(60, 2000) // ctx.shard_count + 2):
                 n_saves = 3 + i % 4
                 cancel = [[n_saves - 1], [n_saves - 1, n_saves - 2], [], [1], list(range(2, n_saves))][i % 5]
